@@ -564,7 +564,7 @@ def main(chk: Check) -> None:
     else:
         chk.cov["obligations"] += 1
     chk.trusted += [
-        "everything listed for C03 (translator tools/c03.py, extraction + coq/C03/driver.ml, converter language predicates, sort stability)",
+        "everything listed for C03 (the statement pins tools/pins/c03_*.txt cover Map.bind / bind_to_environ, MapAdapter.match / build / get_default_redirect / make_redirect_url / make_alias_redirect_url / encode_query_args; translator tools/c03.py, extraction + coq/C03/driver.ml, converter language predicates, sort stability)",
         "urllib.parse.urlunsplit, quote and str.encode('utf-8') hand-modelled (validated differentially); urllib.parse.uses_netloc tabulated from the interpreter",
         "encode_query_args of a mapping (werkzeug.urls._urlencode) is an input of the model",
     ]
